@@ -770,3 +770,30 @@ def _o():
                     out.append(a == b and a.sgn0 == b.sgn0)
         return ("C20-INVARIANT", all(out))
     return (f, [], {})
+
+
+# ------------------------------------------------------------------ verification calls that fail inside the library
+for _s in SUITES:
+    def _mk7(s):
+        @op("AggregateVerify:identity-key-second:%s" % s, 2)
+        def _a():
+            C = getattr(I("py_ecc.bls"), SUITES[s])
+            return (C.AggregateVerify, [[LIT["pk1"], b"\xc0" + b"\x00" * 47], [b"msg one", b"msg two"], LIT["agg:" + s]], {})
+
+        @op("AggregateVerify:malformed-signature:%s" % s, 0)
+        def _b():
+            C = getattr(I("py_ecc.bls"), SUITES[s])
+            return (C.AggregateVerify, [[LIT["pk1"]], [b"msg one"], b"\xff" * 96], {})
+    _mk7(_s)
+
+
+@op("pairing:off-curve-error:final_exponentiate=False:optimized_bn128", 0)
+def _o():
+    M = I("py_ecc.optimized_bn128")
+    return (lambda Q, P: M.pairing(Q, P, final_exponentiate=False), [M.G2, (M.FQ(1), M.FQ(1), M.FQ(1))], {})
+
+
+@op("pairing:off-curve-Q-error:optimized_bls12_381", 0)
+def _o():
+    M = I("py_ecc.optimized_bls12_381")
+    return (M.pairing, [(M.FQ2([1, 1]), M.FQ2([2, 3]), M.FQ2.one()), M.G1], {})
